@@ -36,11 +36,15 @@ fn c15_invariants(out: &mut Out, q: &Quantile, p: f64, seen: &[f64]) {
     }
     let mn = seen.iter().cloned().fold(f64::INFINITY, f64::min);
     let mx = seen.iter().cloned().fold(f64::NEG_INFINITY, f64::max);
-    out.x(!est.is_nan() && mn <= est && est <= mx, || format!("quantile {:?} outside [{:?},{:?}] p={:?} seen={:?}", est, mn, mx, p, &seen[..seen.len().min(40)]));
+    // known finding (KNOWN_FINDINGS.txt, key=spread-overflow): once max - min exceeds f64::MAX the P-square
+    // formulas overflow; every other violation is reported as such
+    let overflow = (mx - mn).is_infinite() && n >= 5;
+    let chk = |out: &mut Out, cond: bool, msg: String| { if overflow { out.x_known(cond, "spread-overflow", || msg) } else { out.x(cond, || msg) } };
+    chk(out, !est.is_nan() && mn <= est && est <= mx, format!("quantile {:?} outside [{:?},{:?}] p={:?} seen={:?}", est, mn, mx, p, &seen[..seen.len().min(40)]));
     if n >= 5 {
         let (h, pos) = heights_positions(q);
-        out.x(h.windows(2).all(|w| w[0] <= w[1]), || format!("marker heights not sorted: {:?} p={:?} seen={:?}", h, p, &seen[..seen.len().min(40)]));
-        out.x(h[0] == mn && h[4] == mx, || format!("extreme markers {:?},{:?} vs min/max {:?},{:?}", h[0], h[4], mn, mx));
+        chk(out, h.windows(2).all(|w| w[0] <= w[1]), format!("marker heights not sorted: {:?} p={:?} seen={:?}", h, p, &seen[..seen.len().min(40)]));
+        chk(out, h[0] == mn && h[4] == mx, format!("extreme markers {:?},{:?} vs min/max {:?},{:?}", h[0], h[4], mn, mx));
         out.x(pos[0] == 1 && pos[4] == n as i64 && pos.windows(2).all(|w| w[0] < w[1]), || format!("marker positions {:?} after {} observations p={:?} seen={:?}", pos, n, p, &seen[..seen.len().min(40)]));
     }
 }
@@ -230,6 +234,11 @@ pub fn c15(out: &mut Out, tier: &str, rng: &mut Rng) {
         if out.next_case() {
             let q = Quantile::new(p);
             dfs(out, &q, p, &[-2.0, -2.0 + 1e-15, 5e-324, 1e300], &mut Vec::new(), l3.min(6), true);
+        }
+        if out.next_case() {
+            // magnitudes near f64::MAX
+            let q = Quantile::new(p);
+            dfs(out, &q, p, &[-1.7e308, 1e308, 1.5e308, 0.0], &mut Vec::new(), std::env::var("AVGH_HUGE_LEN").ok().and_then(|v| v.parse().ok()).unwrap_or(6), true);
         }
     }
     for kind in 0..8 {
